@@ -566,12 +566,12 @@ Section Invariant.
       destruct (Nat.eq_dec q p) as [->|Hqp]; [|destruct (Nat.eq_dec q (S p)) as [->|HqS]].
       - rewrite gF'_p, gB'_p, gn'_p.
         destruct (inv_F st g I p Hq) as (WF & HFr & HFc). destruct (inv_B st g I p Hq) as (WB & HBr & HBc).
-        apply (comp_FB o L _ _ _ _ n); try congruence; [unfold step_b1; dwfs|].
+        apply (comp_FB o L _ _ _ _ n); try congruence; [unfold step_b1; dwfs| |].
         + rewrite (inv_FB st g I p Hq). now rewrite Hn.
         + exact S_fb1.
       - rewrite gF'_Sp, gB'_Sp, gn'_Sp.
         destruct (inv_F st g I (S p) Hq) as (WF & HFr & HFc). destruct (inv_B st g I (S p) Hq) as (WB & HBr & HBc).
-        apply (comp_FB o L _ _ _ _ m); try congruence; [unfold step_b2; dwfs|].
+        apply (comp_FB o L _ _ _ _ m); try congruence; [unfold step_b2; dwfs| |].
         + rewrite (inv_FB st g I (S p) Hq). now rewrite Hm.
         + exact S_fb2.
       - rewrite gF'_other, gB'_other, gn'_other by assumption. now apply (inv_FB st g I).
@@ -637,6 +637,153 @@ Section Invariant.
         exact (inv_Bc st g I (S p) a2 Ea2).
       - rewrite ms_other in E by assumption. rewrite (gB'_other (S q)), (gB'_other q) by lia.
         exact (inv_Bc st g I q d E).
+    Qed.
+
+    Lemma new_H q : q < M -> dwf (gH g' q) /\ dr (gH g' q) = N q /\ dc (gH g' q) = N (S q).
+    Proof.
+      intros Hq. destruct (Nat.eq_dec q p) as [->|Hqp].
+      - rewrite gH'_p. destruct (inv_H st g I p Hq) as (W & Hr & Hc). csplit; [dwfs| |]; autorewrite with ddim; assumption.
+      - rewrite gH'_other by assumption. now apply (inv_H st g I).
+    Qed.
+
+    Lemma Hlo'_not_Sp q : q <> S p -> Hlo g' q = Hlo g q.
+    Proof.
+      intros Hq. destruct q as [|q0]; [reflexivity|]. cbn [Hlo]. rewrite gH'_other by lia. reflexivity.
+    Qed.
+    Lemma Hhi'_not_p q : q <> p -> Hhi g' q = Hhi g q.
+    Proof. intros Hq. unfold Hhi. now rewrite gH'_other. Qed.
+
+    Lemma new_hom q : q <= M ->
+      dadd o (dmul o (gB g' q) (gF g' q)) (dadd o (Hlo g' q) (Hhi g' q)) = did o (N q).
+    Proof.
+      intros Hq. destruct SD as (Hf1r & Hf1c & Hb1r & Hb1c & Hf2r & Hf2c & Hb2r & Hb2c & Hhr & Hhc & _).
+      destruct a1_facts as (W1 & Hm & Hn). pose proof pM as HpM.
+      destruct (HD p HpM) as (WD & HDr & HDc).
+      destruct (inv_F st g I p ltac:(lia)) as (WF1 & HF1r & HF1c).
+      destruct (inv_F st g I (S p) ltac:(lia)) as (WF2 & HF2r & HF2c).
+      destruct (inv_B st g I p ltac:(lia)) as (WB1 & HB1r & HB1c).
+      destruct (inv_B st g I (S p) ltac:(lia)) as (WB2 & HB2r & HB2c).
+      destruct (inv_H st g I p HpM) as (WH & HHr & HHc).
+      destruct (Nat.eq_dec q p) as [->|Hqp]; [|destruct (Nat.eq_dec q (S p)) as [->|HqS]].
+      - rewrite gB'_p, gF'_p, Hlo'_not_Sp by lia.
+        unfold Hhi. destruct (Nat.ltb_spec p M) as [_|]; [|lia]. rewrite gH'_p.
+        rewrite (comp_hom_src o L (gB g p) (gF g p) (gF g (S p)) (D p) (gH g p) (Hlo g p) a1 b1 f1 h (N p) n);
+          try congruence.
+        + pose proof (inv_hom st g I p ltac:(lia)) as E. unfold Hhi in E.
+          destruct (Nat.ltb_spec p M) as [_|]; [|lia]. exact E.
+        + destruct p as [|p0]; cbn [Hlo]; autorewrite with ddim; [reflexivity|].
+          now destruct (HD p0 ltac:(lia)) as (_ & ? & _).
+        + destruct p as [|p0]; cbn [Hlo]; autorewrite with ddim; [reflexivity|].
+          now destruct (inv_H st g I p0 ltac:(lia)) as (_ & _ & ?).
+        + exact (inv_Fc st g I p a1 Ha).
+        + exact S_h1.
+      - rewrite gB'_Sp, gF'_Sp, Hhi'_not_p by lia. cbn [Hlo]. rewrite gH'_p.
+        rewrite (comp_hom_tgt o L (gB g p) (gB g (S p)) (gF g (S p)) (D p) (gH g p) (Hhi g (S p)) a1 b2 f2 h (N (S p)) m);
+          try congruence.
+        + exact (inv_hom st g I (S p) Hq).
+        + unfold Hhi. destruct (Nat.ltb_spec (S p) M) as [HS|HS]; autorewrite with ddim; [|reflexivity].
+          now destruct (inv_H st g I (S p) HS) as (_ & ? & _).
+        + unfold Hhi. destruct (Nat.ltb_spec (S p) M) as [HS|HS]; autorewrite with ddim; [|reflexivity].
+          now destruct (HD (S p) HS) as (_ & _ & ?).
+        + exact (inv_Bc st g I p a1 Ha).
+        + exact S_h2.
+      - rewrite gB'_other, gF'_other, Hlo'_not_Sp, Hhi'_not_p by assumption. now apply (inv_hom st g I).
+    Qed.
+
+    Lemma t_src_facts t_s : schur_t_src o n r sc = Some t_s ->
+      t_s = mkT n (n - r) (proj o n (n - r)) (dvcat o (dneg o (sc_ainvb sc)) (did o (n - r))).
+    Proof.
+      unfold schur_t_src, t_new. destruct (_ && _); [|discriminate]. intros [= <-].
+      now autorewrite with ddim.
+    Qed.
+    Lemma t_tgt_facts t_t : schur_t_tgt o m r sc = Some t_t ->
+      t_t = mkT m (m - r) (dhcat o (dneg o (sc_cainv sc)) (did o (m - r))) (incl o m (m - r)).
+    Proof.
+      destruct a1_facts as (W1 & _ & _).
+      destruct (sc_unfold o L u UL a1 m n r vp vq t sc eq_refl eq_refl Htri Hsc)
+        as (Hrm & _ & _ & _ & _ & _ & Ec & _).
+      unfold schur_t_tgt, t_new. destruct (_ && _); [|discriminate]. intros [= <-].
+      rewrite Ec. autorewrite with ddim. f_equal; lia.
+    Qed.
+
+    Lemma new_trs q t' : ts q = Some t' -> q < M /\ t' = mkT (N q) (gn g' q) (gF g' q) (gB g' q).
+    Proof.
+      intros E. pose proof pM as HpM.
+      pose proof (perm_length m vp Hvp) as Lvp. pose proof (perm_length n vq Hvq) as Lvq.
+      destruct Hts as [(E1 & E2 & ->)|(t_s & t_t & Es & Et & Eu)].
+      - assert (q <> p) by (intros ->; congruence). assert (q <> S p) by (intros ->; congruence).
+        rewrite gn'_other, gF'_other, gB'_other by assumption. now apply (inv_trs st g I).
+      - apply t_src_facts in Es. apply t_tgt_facts in Et.
+        destruct (update_trans_spec o _ _ _ _ _ _ _ Eu) as (Ho & Hp1 & Hp2).
+        destruct (Nat.eq_dec q p) as [->|Hqp]; [|destruct (Nat.eq_dec q (S p)) as [->|HqS]].
+        + split; [exact HpM|]. destruct (trs st p) as [t1|] eqn:Et1; [|congruence].
+          destruct Hp1 as (t1' & t1'' & Ea & Em & Ep). rewrite Ep in E. injection E as <-.
+          destruct (inv_trs st g I p t1 Et1) as (_ & ->).
+          destruct (trans_step_spec o _ _ _ _ _ Ea Em) as (_ & _ & ->).
+          subst t_s. cbn [t_src t_tgt t_f t_b]. rewrite gn'_p, gF'_p, gB'_p. unfold step_f1, step_b1.
+          destruct (inv_F st g I p ltac:(lia)) as (WF & HFr & HFc).
+          destruct (inv_B st g I p ltac:(lia)) as (WB & HBr & HBc).
+          f_equal.
+          * rewrite (dmul_assoc o L) by (autorewrite with ddim; lia). reflexivity.
+          * rewrite (dmul_assoc o L) by (autorewrite with ddim; destruct a1_facts as (_ & _ & ?); lia). reflexivity.
+        + destruct (trs st (S p)) as [t2|] eqn:Et2; [|congruence].
+          destruct Hp2 as (t2' & t2'' & Ea & Em & Ep). rewrite Ep in E. injection E as <-.
+          destruct (inv_trs st g I (S p) t2 Et2) as (HS & ->). split; [exact HS|].
+          destruct (trans_step_spec o _ _ _ _ _ Ea Em) as (_ & _ & ->).
+          subst t_t. cbn [t_src t_tgt t_f t_b]. rewrite gn'_Sp, gF'_Sp, gB'_Sp. unfold step_f2, step_b2.
+          destruct (inv_B st g I (S p) ltac:(lia)) as (WB & HBr & HBc).
+          assert (Hcc : dc (sc_cainv sc) = r /\ r <= m).
+          { destruct (sc_unfold o L u UL a1 m n r vp vq t sc eq_refl eq_refl Htri Hsc)
+              as (Hrm & _ & _ & _ & _ & _ & Ec & _). rewrite Ec. split; [reflexivity|exact Hrm]. }
+          destruct Hcc as (Hcc & Hrm).
+          f_equal.
+          * rewrite (dmul_assoc o L) by (autorewrite with ddim; lia). reflexivity.
+          * rewrite (dmul_assoc o L) by (autorewrite with ddim; destruct a1_facts as (_ & ? & _); lia). reflexivity.
+        + rewrite Ho in E by assumption.
+          rewrite gn'_other, gF'_other, gB'_other by assumption. now apply (inv_trs st g I).
+    Qed.
+
+    Lemma new_vcs q : q <= M ->
+      Forall2 (fun v v0 => length v = gn g' q /\ vmat o v = dmul o (gF g' q) (vmat o v0)) (vs q) (V0 q).
+    Proof.
+      intros Hq. pose proof pM as HpM. destruct a1_facts as (W1 & Hm & Hn).
+      pose proof (perm_length m vp Hvp) as Lvp. pose proof (perm_length n vq Hvq) as Lvq.
+      destruct (update_vecs_spec o _ _ _ _ _ _ _ Evs) as (Ho & H1 & H2). rewrite Lvq in H1. rewrite Lvp in H2.
+      destruct (Nat.eq_dec q p) as [->|Hqp]; [|destruct (Nat.eq_dec q (S p)) as [->|HqS]].
+      - eapply Forall2_compose; [|exact H1|exact (inv_vcs st g I p Hq)].
+        intros v w v0 Hvw (Hl & Hv). cbn beta in *.
+        assert (HS : length v = n /\ length w = n - r /\ vmat o w = dmul o f1 (vmat o v))
+          by (eapply (step_vec_src o L u UL a1 m n r vp vq t sc); stp).
+        destruct HS as (_ & Hlw & Hw).
+        rewrite gn'_p, gF'_p. split; [exact Hlw|]. rewrite Hw, Hv.
+        destruct (inv_F st g I p Hq) as (WF & HFr & HFc).
+        rewrite (dmul_assoc o L); [reflexivity|]. unfold step_f1. autorewrite with ddim. lia.
+      - eapply Forall2_compose; [|exact H2|exact (inv_vcs st g I (S p) Hq)].
+        intros v w v0 Hvw (Hl & Hv). cbn beta in *.
+        assert (HS : length v = m /\ length w = m - r /\ vmat o w = dmul o f2 (vmat o v))
+          by (eapply (step_vec_tgt o L u UL a1 m n r vp vq t sc); stp).
+        destruct HS as (_ & Hlw & Hw).
+        rewrite gn'_Sp, gF'_Sp. split; [exact Hlw|]. rewrite Hw, Hv.
+        destruct (inv_F st g I (S p) Hq) as (WF & HFr & HFc).
+        rewrite (dmul_assoc o L); [reflexivity|]. unfold step_f2. autorewrite with ddim. lia.
+      - rewrite Ho by assumption. rewrite gn'_other, gF'_other by assumption. now apply (inv_vcs st g I).
+    Qed.
+
+    Theorem step_inv okf' : Inv (mkSt ms ts vs okf') g'.
+    Proof.
+      constructor; cbn [mats trs vcs].
+      - exact new_mats.
+      - exact new_none.
+      - exact new_cpx.
+      - exact new_F.
+      - exact new_B.
+      - exact new_FB.
+      - exact new_Fc.
+      - exact new_Bc.
+      - exact new_H.
+      - exact new_hom.
+      - exact new_trs.
+      - exact new_vcs.
     Qed.
   End StepInv.
 End Invariant.
